@@ -216,6 +216,8 @@ pub struct Snap {
 	pub best: Vec<String>,
 	pub channels: Vec<String>,
 	pub closed: Vec<String>,
+	/// not compared (diagnostics)
+	pub closed_reasons: Vec<String>,
 	pub htlc: Vec<String>,
 	pub balances: Vec<String>,
 	pub rel_mgr: Vec<String>,
@@ -678,6 +680,7 @@ pub struct Runner {
 	salt: u32,
 	/// channels O knew to be closed before the chain script started
 	closed_offchain: HashSet<ChannelId>,
+	pub prof: BTreeMap<&'static str, std::time::Duration>,
 }
 
 fn quiet_pump_rounds() -> usize {
@@ -747,6 +750,7 @@ impl Runner {
 			expiries,
 			salt: 1000,
 			closed_offchain: HashSet::new(),
+			prof: BTreeMap::new(),
 		};
 		r.out.tracked = r.obs.tracked.len();
 		r.out.pending_at_script_start = r.sim.pays.iter().filter(|p| p.state == PayState::Claimable).count();
@@ -801,7 +805,9 @@ impl Runner {
 	fn pump_o(&mut self) -> Result<bool, Failure> {
 		let was = observed_node_active();
 		set_active(true);
+		let t = std::time::Instant::now();
 		let r = self.pump_o_inner();
+		*self.prof.entry("x-pump-o").or_default() += t.elapsed();
 		set_active(was);
 		r
 	}
@@ -818,7 +824,9 @@ impl Runner {
 		}
 		self.sim.w.nodes[o].chain_monitor.added_monitors.lock().unwrap().clear();
 		self.note_own_broadcasts();
+		let t = std::time::Instant::now();
 		self.obs.scan(&self.sim)?;
+		*self.prof.entry("y-scan").or_default() += t.elapsed();
 		Ok(progress)
 	}
 
@@ -1319,6 +1327,7 @@ impl Runner {
 
 	fn apply_event(&mut self, idx: usize, ev: &TEv, plan: &Plan, last: bool, trace: Option<&Trace>, checkpoint: bool) -> Result<(), Failure> {
 		let n = self.sim.w.n;
+		let t0 = std::time::Instant::now();
 		match ev {
 			TEv::Connect(b) => {
 				self.say(format!("#{} CONNECT {} height {} txs {:?}", idx, short_hash(&b.block_hash()), self.base_len + self.gchain.len(), b.txdata.iter().map(|t| t.compute_txid().to_string()[..8].to_string()).collect::<Vec<_>>()));
@@ -1358,8 +1367,14 @@ impl Runner {
 			},
 		}
 		let ps = plan.steps[idx % plan.steps.len()].clone();
+		*self.prof.entry("1-others").or_default() += t0.elapsed();
+		let t1 = std::time::Instant::now();
 		self.sync_o(plan, &ps, last, trace)?;
+		*self.prof.entry("2-sync-o").or_default() += t1.elapsed();
+		let t2 = std::time::Instant::now();
 		self.quiesce()?;
+		*self.prof.entry("3-quiesce").or_default() += t2.elapsed();
+		let _t3 = std::time::Instant::now();
 		if checkpoint || last {
 			let synced = self.o_chain_hashes() == self.gchain.iter().map(|b| b.block_hash()).collect::<Vec<_>>() && self.aligned();
 			if synced {
@@ -1370,6 +1385,7 @@ impl Runner {
 				self.out.snaps.insert(idx, s);
 			}
 		}
+		*self.prof.entry("4-snapshot").or_default() += _t3.elapsed();
 		Ok(())
 	}
 
@@ -1392,6 +1408,11 @@ impl Runner {
 		self.pump_o()?;
 		let mut set: BTreeSet<String> = BTreeSet::new();
 		let wallet_script = lightning::util::wallet_utils::WalletSourceSync::get_change_script(&*self.sim.w.nodes[o].wallet_source).unwrap();
+		// only claims against outputs that exist on the chain O was told are compared: right after a force close the
+		// monitor also holds claims against the outputs of its still unconfirmed commitment, which it drops when the
+		// commitment is reorganised out and re-creates when it confirms again (a transient difference)
+		let confirmed: HashSet<Txid> = self.mirror.iter().flat_map(|m| m.2.iter().cloned()).collect();
+		let exists = |op: &OutPoint, funding: &HashMap<OutPoint, ChannelId>| funding.contains_key(op) || confirmed.contains(&op.txid);
 		for tx in self.sim.broadcasts[o][before..].iter() {
 			for i in tx.input.iter() {
 				let op = i.previous_output;
@@ -1400,13 +1421,15 @@ impl Runner {
 				if wallet_input {
 					continue;
 				}
-				if self.obs.funding_rev.contains_key(&op) || self.relevant.contains(&op.txid) {
+				if exists(&op, &self.obs.funding_rev) {
 					set.insert(format!("{}:{}", op.txid, op.vout));
 				}
 			}
 		}
 		for op in self.obs.bump_outpoints.drain(..) {
-			set.insert(format!("{}:{}", op.txid, op.vout));
+			if exists(&op, &self.obs.funding_rev) {
+				set.insert(format!("{}:{}", op.txid, op.vout));
+			}
 		}
 		Ok(set.into_iter().collect())
 	}
@@ -1443,8 +1466,13 @@ impl Runner {
 		};
 		s.rel_mgr = fmt_rel(Confirm::get_relevant_txids(nd.node));
 		s.rel_mon = fmt_rel(Confirm::get_relevant_txids(cm));
-		s.closed = self.obs.closed.clone();
+		// which channels O considers closed. The ClosureReason is not compared: whether the manager notices an
+		// expired HTLC first (HTLCsTimedOut) or is shown the confirmed commitment first (CommitmentTxConfirmed)
+		// depends on the call schedule, the closing transaction does not.
+		s.closed = self.obs.closed.iter().map(|c| c.split(' ').next().unwrap_or("").to_string()).collect();
 		s.closed.sort();
+		s.closed_reasons = self.obs.closed.clone();
+		s.closed_reasons.sort();
 		s.htlc = self.obs.res.clone();
 		s.htlc.sort();
 		s.spendable = self.obs.spendable.clone();
